@@ -129,7 +129,9 @@ def run(rep, work, tier, seed, props, replay=None):
     if replay is not None and "census" in replay:
         cb = [list(replay_mirror(replay["stmts"]))[-1][0]]
     while replay is None and len(cb) < (1500 if tier == "thorough" else 300):
-        b = c13.gen_case(rng, mid_backward=rng.random() < 0.4)
+        # (no mid-history backward here: a view that outlived a backward() of its base and is then used in an in-place update of that base is
+        #  the known finding stale_view_as_inplace_operand_makes_cycle)
+        b = c13.gen_case(rng, mid_backward=False)
         if b is not None:
             cb.append(b)
     ccases = []
@@ -139,6 +141,7 @@ def run(rep, work, tier, seed, props, replay=None):
         ccases.append(c)
     cres = gh.run_impl_cases(ccases) if ccases else []
     leaks = [(b, r) for b, r in zip(cb, cres) if r["leaked"] != {"tensors": 0, "ops": 0}]
+    census_unexpected = sum(1 for b, r in zip(cb, cres) if any(o is not None and s["op"] != "fail" and s.get("expect") != "raise" for s, o in zip(b.stmts, r["outcomes"])))
     for b, r in sorted(leaks, key=lambda x: len(x[0].stmts))[:5]:
         rep.violation({"kind": "after backward() and dropping every reference, %d tensor(s) and %d operation(s) (internal placeholder copies included) are still alive with the cyclic GC disabled"
                                % (r["leaked"]["tensors"], r["leaked"]["ops"]), "census": True, "stmts": b.stmts, "leaked": r["leaked"]})
@@ -164,7 +167,7 @@ def run(rep, work, tier, seed, props, replay=None):
     nt = set(progs.canonical(b) for b, k in zip(kb, kk) if nontrivial(b, k))
     rep.coverage.update({
         "evaluations": len(kb) + len(fcases) + len(cb),
-        "placeholder_census_histories": len(cb), "placeholder_census_leaks": len(leaks),
+        "placeholder_census_histories": len(cb), "placeholder_census_leaks": len(leaks), "placeholder_census_histories_with_unexpected_exceptions": census_unexpected,
         "placeholder_census_statements": gh.op_histogram(cb),
         "distinct_nontrivial": len(nt),
         "rule": "histories over shared leaves (2-3 forward/backward iterations, or free interleavings of backward/clear_graph/null_grad/new ops/del); the caller keeps the leaves and a random 15% of "
